@@ -48,6 +48,8 @@ Regression (not a clause) -- definitions that are NOT the code, each refuted on 
 * fix 1fd9f14 `analyzeEventsOld` (analyze_model_evaluation ignored --seed: unseeded bootstrap): `C18_analyze_old_counterexample`;
 * S7-C18 `cliGeneratorOld` (`if args.seed:`, seed 0 = no seed): `C18_seed0_old_counterexample` (and: agrees with the code for every seed ≠ 0);
 * S5-C18 `dbalCachedOld` (scorer object keeps the triples of its first call): `C18_triple_cache_old_counterexample`; positive side `C18_history_independent`;
+* S8-C18 `selectOnTableOld` (tie for the minimum score broken from a fresh generator): `C18_tie_break_old_counterexample`; positive side, every score
+  table incl. ties: `C18_selectNextPlate_every_table`;
 * S3-C18 iteration over a hash-ordered set: `C18_set_order_old_counterexample`; positive side `C18_sorted_iteration_order_independent`;
 * fix-era: `C18_conditional_install_interferes`, `C18_no_rng_fallback_depends_on_entropy`, `C18_vi_model_interferes`.
 
@@ -260,6 +262,27 @@ orders receive different draws -/
 theorem C18_set_order_old_counterexample :
     assigned [0, 1] (fun i => i + 10) 0 = some 10 ∧ assigned [1, 0] (fun i => i + 10) 0 = some 11 := by
   decide
+
+/-- `select_next_plate` with the generator given draws NOTHING, from any source, for EVERY score table -- distinct scores, exact ties for
+the minimum, all-equal tables, several `-inf` (the selection is `argmin`, the first minimal entry): its result is a function of the table and the
+arguments alone, under any global / entropy state -/
+theorem C18_selectNextPlate_every_table (scores : List Int) (g γ γ' ω ω' : Stream) :
+    selectOnTable true scores = [] ∧ OnlyG (fromEvents (selectOnTable true scores)) ∧
+    (run (fromEvents (selectOnTable true scores)) ⟨g, γ, ω⟩).out = (run (fromEvents (selectOnTable true scores)) ⟨g, γ', ω'⟩).out ∧
+    (run (fromEvents (selectOnTable true scores)) ⟨g, γ, ω⟩).world.ω = ω ∧
+    fromEvents (selectOnTable true scores) = prog .selectNextPlate {} :=
+  ⟨rfl, onlyG_fromEvents _ rfl, rfl, rfl, rfl⟩
+
+/-- S8-C18 (ties for the minimum broken with `rng.choice`, the caller passes no generator): on the tied table `[3, 3]` the regression definition
+makes a FRESH generator and draws from it -- the selected plate depends on the OS entropy and consumes it -- whereas on the distinct table `[3, 4]` it
+draws nothing (which is why distinct score tables never showed it); the code's definition draws nothing on either (`C18_selectNextPlate_every_table`) -/
+theorem C18_tie_break_old_counterexample :
+    minTied [3, 3] = true ∧ minTied [3, 4] = false ∧ minTied [5, -7, 2, -7] = true ∧
+    selectOnTableOld true [3, 3] = [ev .fresh .newgen, ev .fresh .choice] ∧ selectOnTableOld true [3, 4] = [] ∧
+    (∃ (g γ ω ω' : Stream),
+      (run (fromEvents (selectOnTableOld true [3, 3])) ⟨g, γ, ω⟩).out ≠ (run (fromEvents (selectOnTableOld true [3, 3])) ⟨g, γ, ω'⟩).out ∧
+      (run (fromEvents (selectOnTableOld true [3, 3])) ⟨g, γ, ω⟩).world.ω 0 ≠ ω 0) := by
+  refine ⟨by decide, by decide, by decide, by decide, by decide, fun _ => 0, fun _ => 0, fun i => i, fun i => i + 1, ?_, ?_⟩ <;> decide
 
 /-- … whereas the code iterates over `np.unique(names)`: the SORTED items.  Whatever order the container lists the items in (any permutation),
 every item receives the same draw. -/
